@@ -46,7 +46,8 @@ U4 = {'2K2': [(0, 1), (2, 3)], '2K2b': [(0, 2), (1, 3)], 'P4': [(0, 1), (1, 2), 
 D4 = {'2arcs': [(0, 1), (2, 3)], '3arcs_fan': [(0, 1), (0, 2), (2, 3)], '3arcs_chain': [(0, 1), (2, 3), (3, 0)],
       'recip2': [(0, 1), (1, 0), (2, 3), (3, 2)], 'ring4': [(0, 1), (1, 2), (2, 3), (3, 0)], '3arcs_in': [(1, 0), (2, 0), (3, 2)],
       'ring4_chord': [(0, 1), (1, 2), (2, 3), (3, 0), (0, 2)],
-      'sc5': [(0, 1), (0, 2), (1, 0), (2, 3), (3, 0)], 'sc5b': [(0, 1), (0, 2), (1, 3), (2, 3), (3, 0)]}
+      'sc5': [(0, 1), (0, 2), (1, 0), (2, 3), (3, 0)], 'sc5b': [(0, 1), (0, 2), (1, 3), (2, 3), (3, 0)],
+      'sc5c': [(0, 1), (0, 2), (1, 2), (2, 3), (3, 0)], 'sc5d': [(0, 1), (0, 2), (1, 0), (2, 3), (3, 1)]}
 U5 = {'P3+K2': [(0, 1), (1, 2), (3, 4)], 'P5': [(0, 1), (1, 2), (2, 3), (3, 4)], 'C5': [(0, 1), (1, 2), (2, 3), (3, 4), (4, 0)],
       'bull': [(0, 1), (1, 2), (0, 2), (1, 3), (2, 4)]}
 
@@ -97,7 +98,7 @@ def cases(tier, seed):
                 shard_depth=(8 if m >= 2 and len(U4[s]) >= 3 else None))
         add(fn=fn, kind='randmio', n=4, sup='P4', support=und_from_edges(4, U4['P4']), iters=0, draws=2, name=fn + '/P4/zero-budget')
     for fn in ('randmio_dir', 'randmio_dir_connected'):
-        plan = [('2arcs', 1), ('2arcs', 2), ('3arcs_fan', 1), ('3arcs_fan', 2), ('3arcs_chain', 1), ('recip2', 1), ('ring4', 1), ('3arcs_in', 1), ('sc5', 1), ('sc5b', 1)] if q else \
+        plan = [('2arcs', 1), ('2arcs', 2), ('3arcs_fan', 1), ('3arcs_fan', 2), ('3arcs_chain', 1), ('recip2', 1), ('ring4', 1), ('3arcs_in', 1), ('sc5', 1), ('sc5b', 1), ('sc5c', 1), ('sc5d', 1)] if q else \
                [(s, m) for s in D4 for m in (1, 2)] + [('2arcs', 3), ('3arcs_fan', 3)]
         for s, m in plan:
             S = dir_from_arcs(4, D4[s])
